@@ -94,6 +94,10 @@ func campaignC18(p *Parser, req *Request, resp *Response) {
 		bodies[i] = func(cl *simrt.Client) {
 			for j := range clients[i] {
 				c := clients[i][j]
+				// the cap bounds one call, as it does in the solo runs (it used to bound
+				// the sum of a client's calls: three heavy calls of one client looked
+				// like one call that never returns)
+				cl.Cap = cl.Steps + stepCap
 				results[i][j] = p.Exec(&c, cl)
 				if cl.Aborted {
 					return
